@@ -76,6 +76,10 @@ def eval_runs(job):
     """job = (k, data int, en, [flip tuples], engine) -> (cw int, [[f, o ones, sec, ded], ...])"""
     k, data, en, flips, engine = job
     cw = encode(k, data, engine)
+    if flips == "cwones":
+        # mode "unit": the flip sets are read off the encoder's answer - nothing flipped, the parity
+        # position alone, and every position at which the code word carries a 1 (each alone)
+        flips = unit_flips(cw)
     dones = ones(data)
     runs = []
     for f in flips:
@@ -85,6 +89,10 @@ def eval_runs(job):
         o, s, d = decode(k, cw ^ m, en, engine)
         runs.append([list(f), dones if o == data else ones(o), int(s), int(d)])
     return cw, runs
+
+
+def unit_flips(cw):
+    return [()] + [(p,) for p in sorted(set([0] + ones(cw)))]
 
 
 def eval_enc(job):
@@ -151,9 +159,9 @@ def plan_groups(k, cls, tier, rnd):
         w = width(k)
         G.append((0, 1, "all012", None))
         G.append((0, 0, "all01", None))
-        unit_mode = "all01" if tier == "thorough" and (k <= 64 or k in (100, 128)) else "none"
+        unit_mode = "all01" if tier == "thorough" and (k <= 64 or k in (100, 128)) else "unit"
         for i in range(k):
-            G.append((1 << i, 1, unit_mode, None))
+            G.append((1 << i, 1, unit_mode, "cwones" if unit_mode == "unit" else None))
         G.append((full, 1, "sample", sample_flips(w, 60 if tier == "quick" else 200, rnd)))
         nrand = 3 if tier == "quick" else 5
         seen = {0, full}
